@@ -65,7 +65,11 @@ _add('C07',
      'T1 C07_sound (Coq): on accepted traces a finishing customer leaves at once iff its destination has space, otherwise is blocked '
      'keeping its server; no blocked customer while its destination has space at a frame boundary; blocked queues are pure FIFO '
      '(tail-append at Block, head-removal at Unblock) so customers enter a node in the order they became blocked to it; time_blocked = '
-     'exit - end. K1 on restricted networks (non-pre-emptive).')
+     'exit - end. K1 on restricted networks (non-pre-emptive). '
+     'T2 engine_blocking (Coq, Inv/Blocking.v, 2 200 lines; engine model stage 1; the unblocking cascade by induction on fuel with a slack of one place for the node being refilled): for every configuration, every state '
+     'satisfying the invariants and every oracle of draws, after any number of events - Blk: the blocked-queue counter is the length, somebody is blocked to a node only if it has a finite capacity and is full (nobody is left blocked while the '
+     'destination has space); event_step_fifo: per event either blocked queues only lose heads or exactly one customer of the active node joins the END of the queue of a full node and nothing else changes (FIFO); Who: every entry (from, y) is a customer of node `from`, '
+     'flagged blocked with that destination and still holding its server, every customer flagged blocked is in exactly one queue once. K2 ties the model to the code step by step; blk_b / who_b (sound) hold on the initial and every later real snapshot visited.')
 _add('C08',
      'T1 C08_sound (Coq): every accepted service start chose a customer of the first non-empty waiting priority class, the earliest arrival '
      '(FIFO) / latest (LIFO) / any (SIRO) of that class, evaluated on the waiting line captured at the moment of the choice. K1: every '
